@@ -1738,6 +1738,334 @@ def flatten_records(trees, base, log):
                     tree.body.remove(K['node'])
 
 
+def named_tuple_records(trees, base, log):
+    """N9b.  A new `typing.NamedTuple` class K is a tuple with named positions.  Values of K are tracked through the module (constructor
+    calls, `_replace`, locals, fields, parameters, elements of containers they are pushed into, loop variables over such containers).
+      * K values kept in containers (heap entries): K(...) becomes the tuple display in field order, `x.f` on a tracked value `x[i]`;
+      * K values only held in locals / fields / parameters: every holder is split into one holder per field (`self.h = K(a, b)` ->
+        `self.h_f1 = a; self.h_f2 = b`, a parameter `p` -> `p_f1, p_f2`, `x._replace(f1=v)` -> (v, x_f2)).
+    Nothing is rewritten when a tracked value is used in any other way (compared, returned, passed to unknown code)."""
+    for mname, tree in trees.items():
+        b = base.get(mname, {'classes': {}})
+        for kc in [c for c in tree.body if isinstance(c, ast.ClassDef) and c.name not in b.get('classes', {})
+                   and any(_txt(x) in ('NamedTuple', 'typing.NamedTuple') for x in c.bases)]:
+            K = kc.name
+            fields, defaults = [], {}
+            for st in kc.body:
+                if isinstance(st, ast.AnnAssign) and isinstance(st.target, ast.Name):
+                    fields.append(st.target.id)
+                    if st.value is not None:
+                        defaults[st.target.id] = st.value
+            if not fields:
+                continue
+            # 1. classmethod factories `return cls(...)` called as K.m(args)
+            facts = {}
+            for m in kc.body:
+                if isinstance(m, ast.FunctionDef) and any(_txt(d) == 'classmethod' for d in m.decorator_list):
+                    body = _body(m)
+                    if len(body) == 1 and isinstance(body[0], ast.Return) and isinstance(body[0].value, ast.Call) and _txt(body[0].value.func) in ('cls', K):
+                        facts[m.name] = m
+
+            class _Fact(ast.NodeTransformer):
+                def visit_Call(self, node):
+                    self.generic_visit(node)
+                    if isinstance(node.func, ast.Attribute) and isinstance(node.func.value, ast.Name) and node.func.value.id == K and node.func.attr in facts \
+                            and not node.keywords:
+                        m = facts[node.func.attr]
+                        ps = [a.arg for a in m.args.args][1:]
+                        if len(ps) == len(node.args) and all(_atomic(a) for a in node.args):
+                            call = _Subst(dict(zip(ps, node.args)), {}).visit(copy.deepcopy(_body(m)[0].value))
+                            call.func = ast.Name(id=K, ctx=ast.Load())
+                            return ast.copy_location(call, node)
+                    return node
+            for st in tree.body:
+                if st is not kc:
+                    _Fact().visit(st)
+
+            def ctor_components(call):
+                comp = {}
+                if len(call.args) > len(fields) or any(isinstance(a, ast.Starred) for a in call.args) or any(k.arg is None for k in call.keywords):
+                    return None
+                for f, a in zip(fields, call.args):
+                    comp[f] = a
+                for k in call.keywords:
+                    if k.arg not in fields or k.arg in comp:
+                        return None
+                    comp[k.arg] = k.value
+                for f in fields:
+                    if f not in comp:
+                        if f not in defaults:
+                            return None
+                        comp[f] = defaults[f]
+                return comp
+
+            fns = [(c2, f) for c2 in [None] + [c for c in tree.body if isinstance(c, ast.ClassDef) and c is not kc]
+                   for f in (tree.body if c2 is None else c2.body) if isinstance(f, (ast.FunctionDef, ast.AsyncFunctionDef))]
+            by_name = {}
+            for (c2, f) in fns:
+                by_name.setdefault(f.name, []).append((c2, f))
+            local, field_c, elem_c = set(), set(), set()          # (id(fn), name) | attr name | attr name
+
+            def kval(e, fn):
+                if isinstance(e, ast.Call):
+                    if isinstance(e.func, ast.Name) and e.func.id == K:
+                        return True
+                    if isinstance(e.func, ast.Attribute) and e.func.attr == '_replace' and kval(e.func.value, fn):
+                        return True
+                    ft = _txt(e.func)
+                    if ft in ('heapq.heappop', 'heapq.heappushpop', 'heapq.heapreplace') and e.args and isinstance(e.args[0], ast.Attribute) and e.args[0].attr in elem_c:
+                        return True
+                    if isinstance(e.func, ast.Attribute) and e.func.attr == 'pop' and isinstance(e.func.value, ast.Attribute) and e.func.value.attr in elem_c:
+                        return True
+                    return False
+                if isinstance(e, ast.Name):
+                    return (id(fn), e.id) in local
+                if isinstance(e, ast.Attribute):
+                    return e.attr in field_c
+                if isinstance(e, ast.Subscript) and isinstance(e.value, ast.Attribute) and e.value.attr in elem_c and not isinstance(e.slice, ast.Slice):
+                    return True
+                if isinstance(e, ast.IfExp):
+                    return kval(e.body, fn) and kval(e.orelse, fn)
+                return False
+            changed = True
+            rounds = 0
+            while changed and rounds < 8:
+                changed = False
+                rounds += 1
+                for (c2, fn) in fns:
+                    for x in ast.walk(fn):
+                        if isinstance(x, (ast.Assign, ast.AnnAssign)) and getattr(x, 'value', None) is not None and kval(x.value, fn):
+                            for t in (x.targets if isinstance(x, ast.Assign) else [x.target]):
+                                key = ('l', (id(fn), t.id)) if isinstance(t, ast.Name) else ('f', t.attr) if isinstance(t, ast.Attribute) else None
+                                if key and (key[1] not in (local if key[0] == 'l' else field_c)):
+                                    (local if key[0] == 'l' else field_c).add(key[1])
+                                    changed = True
+                        elif isinstance(x, ast.Call):
+                            ft = _txt(x.func)
+                            if ft in ('heapq.heappush', 'heapq.heappushpop', 'heapq.heapreplace') and len(x.args) == 2 and isinstance(x.args[0], ast.Attribute) and kval(x.args[1], fn):
+                                if x.args[0].attr not in elem_c:
+                                    elem_c.add(x.args[0].attr)
+                                    changed = True
+                            elif isinstance(x.func, ast.Attribute) and x.func.attr in ('append', 'insert', 'remove', 'count', 'index') and isinstance(x.func.value, ast.Attribute) \
+                                    and x.args and kval(x.args[-1], fn):
+                                if x.func.value.attr not in elem_c:
+                                    elem_c.add(x.func.value.attr)
+                                    changed = True
+                            else:
+                                callee = x.func.attr if isinstance(x.func, ast.Attribute) else (x.func.id if isinstance(x.func, ast.Name) else None)
+                                for (c3, f3) in by_name.get(callee, []):
+                                    ps = [a.arg for a in f3.args.args]
+                                    off = 1 if (c3 is not None and isinstance(x.func, ast.Attribute) and not any(_txt(d) == 'staticmethod' for d in f3.decorator_list)) else 0
+                                    for i, a in enumerate(x.args):
+                                        if kval(a, fn) and i + off < len(ps) and (id(f3), ps[i + off]) not in local:
+                                            local.add((id(f3), ps[i + off]))
+                                            changed = True
+                                    for k in x.keywords:
+                                        if k.arg in ps and kval(k.value, fn) and (id(f3), k.arg) not in local:
+                                            local.add((id(f3), k.arg))
+                                            changed = True
+                        elif isinstance(x, (ast.For, ast.comprehension)) and isinstance(x.iter, ast.Attribute) and x.iter.attr in elem_c and isinstance(x.target, ast.Name):
+                            if (id(fn), x.target.id) not in local:
+                                local.add((id(fn), x.target.id))
+                                changed = True
+            if not (local or field_c or elem_c):
+                continue
+            idx = {f: i for i, f in enumerate(fields)}
+            if elem_c:
+                # ---- mode B: plain tuples
+                ok = [True]
+
+                def comp_b(e, f, fn):
+                    if isinstance(e, ast.Call) and isinstance(e.func, ast.Name) and e.func.id == K:
+                        c_ = ctor_components(e)
+                        if c_ is None:
+                            ok[0] = False
+                            return e
+                        return c_[f]
+                    if isinstance(e, ast.Call) and isinstance(e.func, ast.Attribute) and e.func.attr == '_replace':
+                        kw = {k.arg: k.value for k in e.keywords}
+                        return kw[f] if f in kw else comp_b(e.func.value, f, fn)
+                    return ast.Subscript(value=copy.deepcopy(e), slice=ast.Constant(value=idx[f]), ctx=ast.Load())
+
+                def rewrite_fn(fn):
+                    class T(ast.NodeTransformer):
+                        def visit_Attribute(self, node):
+                            self.generic_visit(node)
+                            if isinstance(node.ctx, ast.Load) and node.attr in idx and kval(node.value, fn) and not (isinstance(node.value, ast.Attribute) and False):
+                                return ast.copy_location(ast.Subscript(value=node.value, slice=ast.Constant(value=idx[node.attr]), ctx=ast.Load()), node)
+                            return node
+
+                        def visit_Call(self, node):
+                            was_ctor = isinstance(node.func, ast.Name) and node.func.id == K
+                            was_repl = isinstance(node.func, ast.Attribute) and node.func.attr == '_replace' and kval(node.func.value, fn)
+                            if was_ctor or was_repl:
+                                elts = [comp_b(node, f, fn) for f in fields]
+                                elts = [self.visit(copy.deepcopy(x)) for x in elts]
+                                return ast.copy_location(ast.Tuple(elts=elts, ctx=ast.Load()), node)
+                            return self.generic_visit(node)
+                    T().visit(fn)
+                for (c2, fn) in fns:
+                    rewrite_fn(fn)
+                if ok[0]:
+                    log.append(f'N9b {mname}: values of the NamedTuple {K} (elements of {sorted(elem_c)}) written as plain tuples {tuple(fields)}')
+            else:
+                # ---- mode A: one holder per field; validate every use first
+                parents = {}
+                for (c2, fn) in fns:
+                    for p in ast.walk(fn):
+                        for ch in ast.iter_child_nodes(p):
+                            parents[id(ch)] = p
+                good = True
+                for (c2, fn) in fns:
+                    for x in ast.walk(fn):
+                        is_car = (isinstance(x, ast.Name) and (id(fn), x.id) in local) or (isinstance(x, ast.Attribute) and x.attr in field_c)
+                        if not is_car:
+                            continue
+                        p = parents.get(id(x))
+                        if isinstance(getattr(x, 'ctx', None), ast.Store):
+                            if not (isinstance(p, (ast.Assign, ast.AnnAssign)) and kval(p.value, fn)) and not (isinstance(p, ast.AnnAssign) and p.value is None):
+                                good = False
+                            continue
+                        if isinstance(p, ast.Attribute) and p.value is x and (p.attr in idx or p.attr == '_replace'):
+                            continue
+                        if isinstance(p, (ast.Assign, ast.AnnAssign)) and p.value is x:
+                            continue
+                        if isinstance(p, ast.Call) and x in p.args:
+                            continue
+                        if isinstance(p, ast.keyword):
+                            continue
+                        if isinstance(p, ast.IfExp) and x is not p.test:
+                            continue
+                        good = False
+                # carrier parameters: defaults must be K-valued / None
+                for (c2, fn) in fns:
+                    a = fn.args
+                    ps = a.args
+                    dfl = [None] * (len(ps) - len(a.defaults)) + list(a.defaults)
+                    for p_, d_ in zip(ps, dfl):
+                        if (id(fn), p_.arg) in local and d_ is not None and not (kval(d_, fn) or (isinstance(d_, ast.Constant) and d_.value is None)):
+                            good = False
+                if not good:
+                    continue
+
+                def comp_a(e, f, fn):
+                    if isinstance(e, ast.Call) and isinstance(e.func, ast.Name) and e.func.id == K:
+                        c_ = ctor_components(e)
+                        return copy.deepcopy(c_[f]) if c_ else None
+                    if isinstance(e, ast.Call) and isinstance(e.func, ast.Attribute) and e.func.attr == '_replace':
+                        kw = {k.arg: k.value for k in e.keywords}
+                        return copy.deepcopy(kw[f]) if f in kw else comp_a(e.func.value, f, fn)
+                    if isinstance(e, ast.Name):
+                        return ast.Name(id=f'{e.id}_{f}', ctx=ast.Load())
+                    if isinstance(e, ast.Attribute):
+                        return ast.Attribute(value=copy.deepcopy(e.value), attr=f'{e.attr}_{f}', ctx=ast.Load())
+                    if isinstance(e, ast.IfExp):
+                        return ast.IfExp(test=copy.deepcopy(e.test), body=comp_a(e.body, f, fn), orelse=comp_a(e.orelse, f, fn))
+                    return None
+                failed = [False]
+
+                def rewrite_block(stmts, fn):
+                    out = []
+                    for st in stmts:
+                        for fld in ('body', 'orelse', 'finalbody'):
+                            v = getattr(st, fld, None)
+                            if isinstance(v, list) and v and isinstance(v[0], ast.stmt) and not isinstance(st, (ast.FunctionDef, ast.AsyncFunctionDef, ast.ClassDef)):
+                                setattr(st, fld, rewrite_block(v, fn))
+                        if isinstance(st, ast.Try):
+                            for h in st.handlers:
+                                h.body = rewrite_block(h.body, fn)
+                        if isinstance(st, (ast.Assign, ast.AnnAssign)) and getattr(st, 'value', None) is not None and kval(st.value, fn):
+                            tgts = st.targets if isinstance(st, ast.Assign) else [st.target]
+                            for t in tgts:
+                                for f in fields:
+                                    v = comp_a(st.value, f, fn)
+                                    if v is None:
+                                        failed[0] = True
+                                        v = ast.Constant(value=None)
+                                    nt = ast.Name(id=f'{t.id}_{f}', ctx=ast.Store()) if isinstance(t, ast.Name) else \
+                                        ast.Attribute(value=copy.deepcopy(t.value), attr=f'{t.attr}_{f}', ctx=ast.Store())
+                                    out.append(ast.copy_location(ast.Assign(targets=[nt], value=v, lineno=st.lineno), st))
+                            continue
+                        if isinstance(st, ast.AnnAssign) and st.value is None and ((isinstance(st.target, ast.Name) and (id(fn), st.target.id) in local)
+                                                                                  or (isinstance(st.target, ast.Attribute) and st.target.attr in field_c)):
+                            continue
+                        out.append(st)
+                    return out
+
+                def rewrite_exprs(fn):
+                    class T(ast.NodeTransformer):
+                        def visit_Attribute(self, node):
+                            if isinstance(node.ctx, ast.Load) and node.attr in idx and kval(node.value, fn):
+                                v = comp_a(node.value, node.attr, fn)
+                                if v is not None:
+                                    return ast.copy_location(self.visit(v) if not isinstance(v, (ast.Name, ast.Attribute)) else v, node)
+                            return self.generic_visit(node)
+
+                        def visit_Call(self, node):
+                            # arguments that are K values at carrier parameters are spread
+                            new_args = []
+                            for a in node.args:
+                                if kval(a, fn) and not (isinstance(node.func, ast.Name) and node.func.id == K):
+                                    for f in fields:
+                                        v = comp_a(a, f, fn)
+                                        if v is None:
+                                            failed[0] = True
+                                            v = ast.Constant(value=None)
+                                        new_args.append(v)
+                                else:
+                                    new_args.append(a)
+                            node.args = new_args
+                            new_kw = []
+                            for k in node.keywords:
+                                if k.arg is not None and kval(k.value, fn) and not (isinstance(node.func, ast.Attribute) and node.func.attr == '_replace'):
+                                    for f in fields:
+                                        new_kw.append(ast.keyword(arg=f'{k.arg}_{f}', value=comp_a(k.value, f, fn) or ast.Constant(value=None)))
+                                else:
+                                    new_kw.append(k)
+                            node.keywords = new_kw
+                            return self.generic_visit(node)
+                    T().visit(fn)
+                for (c2, fn) in fns:
+                    fn.body = rewrite_block(fn.body, fn)
+                for (c2, fn) in fns:
+                    rewrite_exprs(fn)
+                for (c2, fn) in fns:
+                    a = fn.args
+                    ps = a.args
+                    dfl = [None] * (len(ps) - len(a.defaults)) + list(a.defaults)
+                    new_ps, new_d = [], []
+                    for p_, d_ in zip(ps, dfl):
+                        if (id(fn), p_.arg) in local:
+                            for f in fields:
+                                new_ps.append(ast.arg(arg=f'{p_.arg}_{f}'))
+                                if d_ is not None:
+                                    new_d.append(comp_a(d_, f, fn) if kval(d_, fn) else ast.Constant(value=None))
+                        else:
+                            new_ps.append(p_)
+                            if d_ is not None:
+                                new_d.append(d_)
+                    a.args, a.defaults = new_ps, new_d
+                    ast.fix_missing_locations(fn)
+                log.append(f'N9b {mname}: holders of the NamedTuple {K} ({sorted(field_c)} and {len(local)} local(s) / parameter(s)) split into one holder per field {tuple(fields)}')
+            # annotations do not keep the class alive
+            ann = set()
+            for st in tree.body:
+                if st is kc:
+                    continue
+                for x in ast.walk(st):
+                    for sub in ([x.annotation] if isinstance(x, (ast.AnnAssign, ast.arg)) and getattr(x, 'annotation', None) is not None else []) + \
+                            ([x.returns] if isinstance(x, (ast.FunctionDef, ast.AsyncFunctionDef)) and x.returns is not None else []):
+                        for y in ast.walk(sub):
+                            if isinstance(y, ast.Name) and y.id == K:
+                                ann.add(id(y))
+                                y.id = 'object'
+            still = any(isinstance(x, ast.Name) and x.id == K for st in tree.body if st is not kc for x in ast.walk(st))
+            if not still and kc in tree.body:
+                tree.body.remove(kc)
+            for (c2, fn) in fns:
+                ast.fix_missing_locations(fn)
+
+
 def inline_yield_sequences(trees, base, log):
     """`for T in self.g(): S` with g a new parameterless generator method whose body is only `yield E1; yield E2; ...` (for instance
     after its loop over a constant table was unrolled) and S a single call statement that evaluates nothing with an effect before
@@ -3963,6 +4291,7 @@ def run(trees, baseline=None):
     undo_renames(trees, base, log)
     match_to_if(trees, log)
     refinement_chains(trees, log)
+    named_tuple_records(trees, base, log)
     instantiate_method_factories(trees, base, log)
     property_objects_to_methods(trees, log)
     expand_seeded_generators(trees, log)
